@@ -347,6 +347,22 @@ def step_check(root, tier, history, op):
         if ctx.writes[op[1]][0] != text:
             vio.append(viol("repeat-text-after-other-writes", root, tier, history, op,
                             "byte-identical output for the same options and the same in-memory state", _first_text_diff(ctx.writes[op[1]][0], text)))
+    # (b'') round 8: the text is a function of the in-memory state and the options, not of which writes came before.
+    # The same root with the edits of this history but none of its writes, when it is in the very same in-memory state,
+    # must give the same text (catches anything a write leaves behind on the object outside its sections and curves).
+    if any(h[0] == "w" for h in history):
+        try:
+            fresh = replay_history(root, tier, [h for h in history if h[0] == "e"]).las
+            if snapshot(fresh) != before:
+                do_write(fresh, cfg)   # a first write with these very options brings STRT/STOP/STEP and '' -> 0 up to date
+            if snapshot(fresh) == before:
+                ftext = do_write(fresh, cfg)
+                if ftext != text:
+                    vio.append(viol("text-depends-on-earlier-writes", root, tier, history, op,
+                                    "the text a never-written object in the same in-memory state gives for these options",
+                                    _first_text_diff(ftext, text)))
+        except Exception:
+            pass
     # (d) the output carries the data as it is in memory now (to format precision), NaN as NULL
     try:
         back_d = lasio.read(text)
